@@ -179,6 +179,48 @@ def c_all_members(P):
     P.cover("all_members")
 
 
+@contract("C07", "parameters.of_the_nearest_init", [MD + "Class.parameters"], floor=2, replay="replay_hierarchies")
+def c_parameters(P):
+    """The constructor a class presents is the `__init__` found through the MRO, i.e. the one all_members presents (own first, then nearest inherited: the two
+    contracts above), never one looked up some other way (e.g. base by base, depth first)."""
+    H = Heap(P)
+    c = H.obj("c", ["Class"])
+    b1, b2 = H.obj("b1", ["Class"]), H.obj("b2", ["Class"])
+    inits = {}
+    for o in (c, b1, b2):
+        f = H.obj(f"init_of_{o.tag}", ["Function"])
+        f.fields["parameters"] = H.obj(f"params_of_{o.tag}", ["Parameters"])
+        inits[id(o)] = f
+    other = H.obj("other_member", OBJ_KINDS)
+    k = P.fresh_str("k_other")
+    P.assume(k.z != z3.StringVal("__init__"))
+    has = {id(o): z3.Bool(f"{o.tag}_presents_an_init") for o in (c, b1, b2)}
+
+    def all_members(P_, o):
+        if id(o) not in inits:
+            raise Unsupported("all_members of another object")
+        d = {models._SymKey(k): other}
+        if P_.branch(has[id(o)]):
+            d["__init__"] = inits[id(o)]
+        return d
+    P.attr_hooks[("ObjectAliasMixin", "all_members")] = all_members
+    P.attr_hooks[("Class", "resolved_bases")] = lambda P_, o: [b1, b2] if o is c else []
+    P.attr_hooks[("Object", "inherited_members")] = lambda P_, o: {}
+    for o in (c, b1, b2):
+        o.fields["members"] = {models._SymKey(k): other}       # none of the three declares __init__ itself: what they present is all_members' business
+    kind, res = outcome(P, lambda: P.getattr(c, "parameters"))
+    P.prove("never_raises", kind == "ok")
+    if kind != "ok":
+        return
+    if P.branch(has[id(c)]):
+        P.prove("parameters_of_the_init_found_through_the_mro", res is inits[id(c)].fields["parameters"])
+        P.cover("parameters.init_found")
+    else:
+        P.prove("no_init_no_parameters", isinstance(res, SObj) and P.resolve_cls(res) == "Parameters" and res is not inits[id(b1)].fields["parameters"]
+                and res is not inits[id(b2)].fields["parameters"])
+        P.cover("parameters.no_init")
+
+
 def bounded_checks(tier, seed):
     import json, os, subprocess, time
     from pyvc.run import VERIF, VENV_PY, REPO_SRC
